@@ -120,7 +120,10 @@ func VerifFlvJoinReplay() {
 	c := NewFlvCache(gop)
 	meta := &flv.Tag{TagType: flv.TagTypeAmf0Data, Timestamp: symapi.Uint32("tmeta"), Data: []byte{2, 0, 10, 'o', 'n', 'M', 'e', 't', 'a', 'D', 'a', 't', 'a'}}
 	vsh := &flv.Tag{TagType: flv.TagTypeVideo, Timestamp: symapi.Uint32("tvsh"), Data: []byte{0x17, 0, 0, 0, 0, 1}}
-	ash := &flv.Tag{TagType: flv.TagTypeAudio, Timestamp: symapi.Uint32("tash"), Data: []byte{0xaf, 0, 0x12, 0x10}}
+	// the AAC sequence header's first byte: SoundFormat 10 with any rate / size / channel bits
+	// (the packetizer writes 0xA6, 0xAE ... for mono or low-rate AAC)
+	ashFlags := 0xa0 | symapi.Byte("aacRateSizeType")&0x0f
+	ash := &flv.Tag{TagType: flv.TagTypeAudio, Timestamp: symapi.Uint32("tash"), Data: []byte{ashFlags, 0, 0x12, 0x10}}
 	symapi.Assert(!c.CachePack(meta) && !c.CachePack(vsh) && !c.CachePack(ash), "headers-are-not-key-frames")
 	k := symapi.IntRange("k", 0, K)
 	var tags []*flv.Tag
